@@ -789,7 +789,21 @@ func TestVerifC05Storm(t *testing.T) {
 							data = append(data, k.frame(seq)...)
 							seq++
 						}
-						res := c05Pump(node, fmt.Sprintf("10.230.%d.%d:%d", g, pi, 10000+sent%50000), data)
+						var res c05PumpRes
+						remote := fmt.Sprintf("10.230.%d.%d:%d", g, pi, 10000+sent%50000)
+						cres := gen.CloseAsync(func() { res = c05Pump(node, remote, data) }, time.Second, 120*time.Second)
+						if cres.Hung {
+							run.Count("dispatch_hung", 1)
+							run.Violation("C05:storm|hang|phase="+k.name, map[string]any{"phase": k.name, "goroutine_state": cres.State, "parked_at": cres.Frames,
+								"decided_by": "a read-loop goroutine in the same lock wait with an identical stack in 3 dumps 100 ms apart; its stream is finite and fully delivered"})
+							stop.Store(true)
+							return
+						}
+						if !cres.Returned {
+							run.Count("watchdog", 1)
+							stop.Store(true)
+							return
+						}
 						run.Count("storm_dispatches", int64(res.Dispatched))
 						run.Eval(res.Dispatched)
 						sent += burst
@@ -911,8 +925,26 @@ func TestVerifC05HandshakeSequences(t *testing.T) {
 		run.Case("handshake-seq|"+class+"|"+ctype, map[string]any{"client_id_kind": map[bool]string{true: "online", false: "offline"}[id == online.ClientID], "stream_len": len(data), "hex_head": fmt.Sprintf("%x", data[:minC05i(len(data), 300)])})
 		k := c05WireSeq.Add(1)
 		w := &c05Wire{data: data, keep: true, remote: vk.FakeAddr{Net: "tcp", Str: fmt.Sprintf("10.%d.%d.%d:42000", 180+(k>>16)&31, (k>>8)&255, k&255)}}
-		res := c05PumpW(node, w)
+		var res c05PumpRes
+		nd := node
+		cres := gen.CloseAsync(func() { res = c05PumpW(nd, w) }, time.Second, 50*time.Second)
 		run.Eval(1)
+		if cres.Hung {
+			run.Count("dispatch_hung", 1)
+			run.Violation("C05:handshake-seq|hang|"+class+"|"+cres.State+"|at="+cres.Frames, map[string]any{"variant_class": class, "connection_type": ctype, "goroutine_state": cres.State, "parked_at": cres.Frames,
+				"stream_hex_head": fmt.Sprintf("%x", data[:minC05i(len(data), 400)]),
+				"decided_by":      "the connection's read-loop goroutine in the same lock wait with an identical stack in 3 dumps 100 ms apart; the stream is finite and fully delivered"})
+			node = c05NewNode(t) // the old server may be wedged behind that lock
+			online = node.NewClient("")
+			o2 := node.NewClient("")
+			offID, offSecret = o2.ClientID, o2.Secret
+			o2.CloseByPeer()
+			return run.Counter("dispatch_hung") < 3
+		}
+		if !cres.Returned {
+			run.Count("watchdog", 1)
+			return false
+		}
 		run.Count("packets_dispatched", int64(res.Dispatched))
 		if strings.HasPrefix(res.Panic, "harness:") {
 			run.Count("harness_errors", 1)
@@ -988,6 +1020,19 @@ func TestVerifC05HandshakeSequences(t *testing.T) {
 			ok = ok && serve("field1/"+f, "control", id, append(hs(id, "control", "", map[string]any{f: x}), hs(id, "control", hexOf(64, false), nil)...), false)
 		}
 	}
+	// a refused (and an accepted anonymous) handshake followed by every command type
+	for ct := 0; ct < 256 && ok; ct++ {
+		refused := hs(39000000+int64(ct), "control", "", nil)
+		cmd := gen.Frame(0x10, gen.CmdJSON(ct, fmt.Sprintf("hc-%d", ct), `{}`))
+		ok = serve("refused-handshake+cmd", "control", online.ClientID, append(append([]byte(nil), refused...), cmd...), false)
+		if ok && (ct < 130 || ct%8 == 0) {
+			step1 := hs(online.ClientID, []string{"control", "tunnel"}[ct%2], "", nil)
+			ok = serve("challenge-pending+cmd", "control", online.ClientID, append(append(append([]byte(nil), step1...), cmd...), gen.Frame(0x11, gen.CmdJSON(ct, "", `{}`))...), false)
+		}
+		if ok {
+			run.Count("handshake_then_command_sequences", 1)
+		}
+	}
 	// interactive: derived from the correct answer (the harness holds the offline client's secret)
 	for _, mk := range []struct {
 		class string
@@ -1039,6 +1084,7 @@ func TestVerifC05HandshakeSequences(t *testing.T) {
 	run.Floor("completed", 1)
 	run.Floor("sequences_with_challenge_issued", int64(maxAll*9/10))
 	run.Floor("interactive_sequences", 10)
+	run.Floor("handshake_then_command_sequences", 256)
 }
 
 func minC05i(a, b int) int {
